@@ -1,6 +1,6 @@
 (* Case runner for the docopt family (C07-C10). *)
 From Coq Require Import List String Ascii Bool Arith.
-From RashV Require Import Sexp Usage.
+From RashV Require Import Sexp Usage Order.
 Import ListNotations.
 Open Scope string_scope. Open Scope list_scope.
 
@@ -123,5 +123,12 @@ Definition run_canon (e : sexp) : option sexp :=
           Some (match canon t ws with None => SList [Atom "unspellable"] | Some toks => SList (Atom "toks" :: map enc_tok toks) end)
       | _, _ => None
       end
+  | _ => None
+  end.
+
+(* (sortstrings xHEX...) : the order in which the code must try these expanded usages *)
+Definition run_sortstrings (e : sexp) : option sexp :=
+  match e with
+  | SList (Atom "sortstrings" :: l) => option_map (fun l => SList (map bytes_atom (sort l))) (map_opt atom_bytes l)
   | _ => None
   end.
